@@ -12,6 +12,11 @@
 // See the License for the specific language governing permissions and
 // limitations under the License.
 
+#[cfg(kani)]
+use crate::verif_shim::HashMap;
+#[cfg(kani)]
+use std::collections::VecDeque;
+#[cfg(not(kani))]
 use std::collections::{HashMap, VecDeque};
 
 use bytes::{BufMut, Bytes, BytesMut};
@@ -413,3 +418,7 @@ fn write_to_buffer(
     };
     Ok(action)
 }
+
+#[cfg(kani)]
+#[path = "/verif/kani/swimos_runtime/uplinks.rs"]
+mod verif_kani;
